@@ -162,7 +162,12 @@ pub fn gen_and_run(rng: &mut Rng, id: usize, out: &mut String) {
     ex(&mut p, format!("case twoparty tp{id}"), out);
     for (side, role) in [("c", "client"), ("s", "server")] {
         let wbuf = *rng.pick(&[0usize, 0, 1, 50, 131072]);
-        let maxw = if rng.chance(1, 4) { format!("{}", wbuf + 330 + rng.below(100)) } else { "inf".into() };
+        // sometimes barely above the largest frame used (300-byte payload): control frames get put back
+        let maxw = match rng.below(6) {
+            0 => format!("{}", wbuf + 330 + rng.below(100)),
+            1 | 2 => format!("{}", wbuf.max(310) + 5 + rng.below(40)),
+            _ => "inf".into(),
+        };
         ex(
             &mut p,
             format!(
